@@ -313,6 +313,43 @@ C17 = {
 }
 
 
+# ---------------------------------------------------------------- C19: platform route vocabularies
+def _plat(hosts, segs, items, frags):
+    return {"hosts": [cp(x) for x in hosts], "segs": [cp(x) for x in segs], "items": [cp(x) for x in items], "frags": [cp(x) for x in frags]}
+
+
+C19 = {
+    "platforms": {
+        "facebook": _plat(["https://www.facebook.com", "http://m.facebook.com", "facebook.com", "https://fr-fr.facebook.com"],
+                          ["groups", "posts", "permalink", "photos", "videos", "people", "watch", "profile.php", "permalink.php", "story.php", "photo.php", "photo",
+                           "10157890123456789", "some.page", "a.10150123456789", "x", "l.php"],
+                          ["v=1234567890", "id=100012345678", "story_fbid=10157", "fbid=10158", "set=a.10150&type=3", "set=g.123456", "u=http%3A%2F%2Fexample.com&h=AT0", "comment_id=9"],
+                          ["", "comment"]),
+        "youtube": _plat(["https://www.youtube.com", "http://youtu.be", "youtube.com", "https://m.youtube.com", "https://www.youtube-nocookie.com"],
+                         ["watch", "embed", "shorts", "channel", "user", "c", "v", "playlist", "dQw4w9WgXcQ", "UCabcdefghijklmnopqrstuv", "SomeName", "@handle", "short", "videos", "x"],
+                         ["v=dQw4w9WgXcQ", "v=tooshort", "list=PLabc123", "v=dQw4w9WgXcQextra", "t=10", "next=%2Fwatch%3Fv%3DdQw4w9WgXcQ", "feature=share"],
+                         ["", "!v=dQw4w9WgXcQ", "/watch?v=dQw4w9WgXcQ"]),
+        "twitter": _plat(["https://twitter.com", "http://x.com", "twitter.com", "https://mobile.twitter.com"],
+                         ["i", "lists", "status", "statuses", "medialab_ScPo", "@user", "123456789", "home", "search", "intent", "photo", "1", "toolonghandlethatexceedsthelimit"],
+                         ["lang=fr", "s=20", "q=x"], ["", "!/user", "!/user/status/12", "!"]),
+        "instagram": _plat(["https://www.instagram.com", "http://instagram.com", "instagram.com"],
+                           ["p", "reel", "reels", "tv", "stories", "explore", "accounts", "some_user.name", "BxKRx5CHn5i", "bad$code", "x", "tags"],
+                           ["igshid=abc", "hl=fr", "utm_source=ig"], ["", "x"]),
+        "telegram": _plat(["https://t.me", "http://telegram.me", "t.me", "https://telegram.org"],
+                          ["s", "joinchat", "channelname", "1234", "AAAAAEkk2WdoDrB4-Q8-gg", "c", "+abcdef", "x"],
+                          ["before=10", "single"], ["", "x"]),
+        "google": _plat(["https://docs.google.com", "https://drive.google.com", "https://www.google.com", "google.com", "https://www.google.fr/amp/s"],
+                        ["document", "spreadsheets", "presentation", "file", "d", "e", "u", "0", "pub", "edit", "view", "1BxiMVs0XRA5nFMdKvBdBZjgmUUqptlbs74OgvE2upms", "2PACX-1vQxyz", "url", "amp", "open", "folders"],
+                        ["id=1BxiMVs0XRA5nFMdKvBdBZjgmUUqptlbs74OgvE2upms", "usp=sharing", "q=http%3A%2F%2Fexample.com", "url=http%3A%2F%2Fexample.com%2Fx&sa=t", "gid=0"], ["", "gid=0"]),
+    },
+    # names that are routes of youtube.com themselves: '/c/<name>' parses as a channel whose canonical url 'youtube.com/<name>' is the route
+    "reserved_channel_names": [cp(x) for x in ["watch", "playlist", "about", "account", "ads", "creators", "feed", "howyoutubeworks", "new", "paid_memberships",
+                                               "reporthistory", "results", "t", "upload", "yt", "embed", "shorts", "channel", "user", "c", "v", "video"]],
+    "foreign": [cp(x) for x in ["", "   ", "http://example.com/a/b", "not a url", "ftp://x.y/z", "http://", "//", "facebook", "youtu.be", "http://notfacebook.com/groups/1/posts/2",
+                                  "javascript:void(0)", "http://[::1]/watch?v=dQw4w9WgXcQ", "/groups/123/posts/456", "/some.page", "?v=dQw4w9WgXcQ"]],
+}
+
+
 def main():
     d = os.path.join(ROOT, "spec", "data")
     os.makedirs(d, exist_ok=True)
@@ -324,6 +361,8 @@ def main():
     sys.path.insert(0, "/repo")
     from ural.data import ISO_3166_1_COUNTRIES_ALPHA_2  # data the property is stated over, not logic
     NORM["countries"] = [cp(c.lower()) for c in sorted(ISO_3166_1_COUNTRIES_ALPHA_2)]
+    with open(os.path.join(d, "c19.json"), "w") as f:
+        json.dump(C19, f, separators=(",", ":"))
     with open(os.path.join(d, "c17.json"), "w") as f:
         json.dump(C17, f, separators=(",", ":"))
     with open(os.path.join(d, "c16.json"), "w") as f:
